@@ -53,6 +53,86 @@ package config
 //@   ensures[own-maps]  result.policiesVersionsVacuum.mapToVacuum == result.policiesVersions && result.txnVersionsVacuum.mapToVacuum == result.txnVersions && result.policiesVersionsVacuum.mapMutex == result.mutex && result.txnVersionsVacuum.mapMutex == result.mutex
 //@   ensures[initial]   result.currentVersion == 1 && in(1, result.policiesVersions) && result.policiesVersions[1] == policiesData && forall(t, TxnID, !in(t, result.txnVersions))
 
+// Reloads and fail-safe reverts install a NEW version; the content of the versions already stored - which pinned
+// transactions are still being answered with - is never touched (the frames below do not list PoliciesData /
+// PoliciesConfig fields, so any write to a stored version's content fails a frame obligation).
+// Reading the policies files and talking to HAProxy (trusted): no effect on the accessor or on stored versions.
+//@ extern loadDataFromLoadedFile
+//@   modifies now
+//@   allocates PoliciesData
+//@   ensures result1 == nil ==> result0 != nil && !old(allocated(result0)) && allocated(result0)
+//@ extern loadDataFromFile
+//@   modifies now
+//@   allocates PoliciesData
+//@   ensures result1 == nil ==> result0 != nil && !old(allocated(result0)) && allocated(result0)
+//@ extern BuildHAProxyEndpointsRequest
+//@   modifies nothing
+//@   allocates HAProxyEndpointsRequest
+//@   ensures result != nil
+//@ extern ManageHAProxyEndpoints
+//@   modifies now
+//@ extern unmanageHAProxyEndpointsVoided
+//@   modifies now
+//@ extern unmanageGlobalVoided
+//@   modifies now
+//@ extern scheduleUnmanageHAProxyGlobal
+//@   modifies now
+//@ extern ScheduleUnmanageHAProxyEndpoints
+//@   modifies now
+//@ extern lo.Difference
+//@   modifies nothing
+//@ extern lo.Keys
+//@   modifies nothing
+
+//@ func (*TxnPoliciesAccessor).GetCurrentPoliciesData
+//@   prop C11
+//@   requires accOK(txnPoliciesAccessor)
+//@   modifies nothing
+//@   allocates PoliciesData
+//@   ensures[the-current-version] seq: old(in(txnPoliciesAccessor.currentVersion, txnPoliciesAccessor.policiesVersions)) ==> result == txnPoliciesAccessor.policiesVersions[txnPoliciesAccessor.currentVersion]
+//@   ensures[never-nil] seq: result != nil || in(txnPoliciesAccessor.currentVersion, txnPoliciesAccessor.policiesVersions)
+
+//@ func (*TxnPoliciesAccessor).UpdatePoliciesData
+//@   prop C11
+//@   mode seq
+//@   requires accOK(txnPoliciesAccessor) && newPoliciesData != nil && in(txnPoliciesAccessor.currentVersion, txnPoliciesAccessor.policiesVersions) && txnPoliciesAccessor.policiesVersions[txnPoliciesAccessor.currentVersion] != nil
+//@   modifies txnPoliciesAccessor.currentVersion, mapof(txnPoliciesAccessor.policiesVersions), txnPoliciesAccessor.policiesVersionsVacuum.entries, txnPoliciesAccessor.policiesVersionsVacuum.active, now
+//@   allocates HAProxyEndpointsRequest, PoliciesData, PoliciesConfig
+//@   requires[no-future-versions] forall(v, PoliciesVersion, v > txnPoliciesAccessor.currentVersion ==> !in(v, txnPoliciesAccessor.policiesVersions))
+//@   ensures[no-future-versions] forall(v, PoliciesVersion, v > txnPoliciesAccessor.currentVersion ==> !in(v, txnPoliciesAccessor.policiesVersions))
+//@   ensures[new-version-installed] result == nil ==> txnPoliciesAccessor.currentVersion == old(txnPoliciesAccessor.currentVersion) + 1 && txnPoliciesAccessor.policiesVersions[txnPoliciesAccessor.currentVersion] == newPoliciesData
+//@   ensures[stored-versions-kept] forall(v, PoliciesVersion, old(in(v, txnPoliciesAccessor.policiesVersions)) ==> in(v, txnPoliciesAccessor.policiesVersions) && txnPoliciesAccessor.policiesVersions[v] == old(txnPoliciesAccessor.policiesVersions[v]))
+
+//@ func (*TxnPoliciesAccessor).RevertToDiagnosisFree
+//@   prop C11
+//@   mode seq
+//@   requires accOK(txnPoliciesAccessor) && in(txnPoliciesAccessor.currentVersion, txnPoliciesAccessor.policiesVersions) && txnPoliciesAccessor.policiesVersions[txnPoliciesAccessor.currentVersion] != nil
+//@   modifies txnPoliciesAccessor.currentVersion, mapof(txnPoliciesAccessor.policiesVersions), txnPoliciesAccessor.policiesVersionsVacuum.entries, txnPoliciesAccessor.policiesVersionsVacuum.active, now
+//@   allocates HAProxyEndpointsRequest, PoliciesData, PoliciesConfig
+//@   requires[no-future-versions] forall(v, PoliciesVersion, v > txnPoliciesAccessor.currentVersion ==> !in(v, txnPoliciesAccessor.policiesVersions))
+//@   ensures[no-future-versions] forall(v, PoliciesVersion, v > txnPoliciesAccessor.currentVersion ==> !in(v, txnPoliciesAccessor.policiesVersions))
+//@   ensures[stored-versions-kept] forall(v, PoliciesVersion, old(in(v, txnPoliciesAccessor.policiesVersions)) ==> in(v, txnPoliciesAccessor.policiesVersions) && txnPoliciesAccessor.policiesVersions[v] == old(txnPoliciesAccessor.policiesVersions[v]))
+
+//@ func (*TxnPoliciesAccessor).RevertToLastLoaded
+//@   prop C11
+//@   mode seq
+//@   requires accOK(txnPoliciesAccessor) && in(txnPoliciesAccessor.currentVersion, txnPoliciesAccessor.policiesVersions) && txnPoliciesAccessor.policiesVersions[txnPoliciesAccessor.currentVersion] != nil
+//@   modifies txnPoliciesAccessor.currentVersion, mapof(txnPoliciesAccessor.policiesVersions), txnPoliciesAccessor.policiesVersionsVacuum.entries, txnPoliciesAccessor.policiesVersionsVacuum.active, now
+//@   allocates HAProxyEndpointsRequest, PoliciesData, PoliciesConfig
+//@   requires[no-future-versions] forall(v, PoliciesVersion, v > txnPoliciesAccessor.currentVersion ==> !in(v, txnPoliciesAccessor.policiesVersions))
+//@   ensures[no-future-versions] forall(v, PoliciesVersion, v > txnPoliciesAccessor.currentVersion ==> !in(v, txnPoliciesAccessor.policiesVersions))
+//@   ensures[stored-versions-kept] forall(v, PoliciesVersion, old(in(v, txnPoliciesAccessor.policiesVersions)) ==> in(v, txnPoliciesAccessor.policiesVersions) && txnPoliciesAccessor.policiesVersions[v] == old(txnPoliciesAccessor.policiesVersions[v]))
+
+//@ func (*TxnPoliciesAccessor).ReloadFromFile
+//@   prop C11
+//@   mode seq
+//@   requires accOK(txnPoliciesAccessor) && in(txnPoliciesAccessor.currentVersion, txnPoliciesAccessor.policiesVersions) && txnPoliciesAccessor.policiesVersions[txnPoliciesAccessor.currentVersion] != nil
+//@   modifies txnPoliciesAccessor.currentVersion, mapof(txnPoliciesAccessor.policiesVersions), txnPoliciesAccessor.policiesVersionsVacuum.entries, txnPoliciesAccessor.policiesVersionsVacuum.active, now
+//@   allocates HAProxyEndpointsRequest, PoliciesData, PoliciesConfig
+//@   requires[no-future-versions] forall(v, PoliciesVersion, v > txnPoliciesAccessor.currentVersion ==> !in(v, txnPoliciesAccessor.policiesVersions))
+//@   ensures[no-future-versions] forall(v, PoliciesVersion, v > txnPoliciesAccessor.currentVersion ==> !in(v, txnPoliciesAccessor.policiesVersions))
+//@   ensures[stored-versions-kept] forall(v, PoliciesVersion, old(in(v, txnPoliciesAccessor.policiesVersions)) ==> in(v, txnPoliciesAccessor.policiesVersions) && txnPoliciesAccessor.policiesVersions[v] == old(txnPoliciesAccessor.policiesVersions[v]))
+
 // Retention arithmetic (lifting): a transaction pinned at tp to a version that is superseded at ts >= tp can still be
 // answered at any time t <= tp + ttlTxn; the version is removable only after ts + ttlVer.
 //@ lemma[retention]
